@@ -114,7 +114,8 @@ class Interposer:
             p = os.fspath(p)
             if isinstance(p, bytes):
                 p = p.decode()
-            return os.path.abspath(p).startswith(self.dir)
+            ap = os.path.abspath(p)
+            return ap.startswith(self.dir) or any(ap.startswith(x) for x in getattr(self, "more_dirs", ()))
         except TypeError:
             return isinstance(p, int) and p in self.fd_paths
 
